@@ -86,6 +86,11 @@ func semanticTokensForTraversal(traversal hcl.Traversal) []lang.SemanticToken {
 					closing = 0
 				}
 			}
+			if rng.End.Column-closing < 1 {
+				// unterminated index which the parser recovered up to
+				// the beginning of a line: there is no closing bracket
+				continue
+			}
 			idxRange := hcl.Range{
 				Filename: rng.Filename,
 				Start: hcl.Pos{
